@@ -65,9 +65,9 @@ def c14_gen(rng, tier):
                 add(tr, [rng.choice(STALE_DETECTABLE)] * k, ["ok"], False)
             k = rng.randrange(1, 13)
             add(tr, [rng.choice(STALE_DETECTABLE) for _ in range(k)], ["ok"], False)
-            k = rng.randrange(1, 7)
+            k = rng.randrange(1, 11)
             add(tr, [rng.choice(STALE_DETECTABLE)] * k, [rng.choice(["refuse", "fin", "rst", "garbage", "efin", "erst"])], False)
-            k = rng.randrange(1, 7)
+            k = rng.randrange(1, 11)
             add(tr, [rng.choice(STALE_DETECTABLE)] * k, [rng.choice(["silent", "half", "blackhole"])], True)
             # stale ones and a healthy one: whatever the (random) order the idle set is walked in, the reply comes
             k = rng.randrange(1, 6)
